@@ -366,6 +366,9 @@ func writeFailureEvidence(id, tier string, seed int, reason string, wall float64
 // runWitness runs the bounded witness finder (a property-level oracle against the real code).
 func runWitness(id, spec string) (input, msg, cmd string) {
 	fs := strings.Fields(spec)
+	if len(fs) >= 3 && fs[0] == "histprobe" {
+		return runHistWitness(id, fs)
+	}
 	if len(fs) < 3 || fs[0] != "parseprobe" {
 		return "", "", ""
 	}
@@ -387,6 +390,32 @@ func runWitness(id, spec string) (input, msg, cmd string) {
 			f := filepath.Join(dir, "failing-input.txt")
 			os.WriteFile(f, []byte(in), 0o644)
 			return in, strings.TrimPrefix(rest[len(q):], ": "), bin + " oracle " + fs[1] + " " + f
+		}
+	}
+	return "", "", ""
+}
+
+// runHistWitness: bounded search for a failing history against the real file.SpokFile.Run.
+func runHistWitness(id string, fs []string) (input, msg, cmd string) {
+	bin := filepath.Join(verifDir, "bin", "histprobe")
+	wctx, wcancel := context.WithTimeout(context.Background(), 150*time.Second)
+	defer wcancel()
+	args := append([]string{"search"}, fs[1:]...)
+	out, _ := exec.CommandContext(wctx, bin, args...).CombinedOutput()
+	for _, l := range strings.Split(string(out), "\n") {
+		if strings.HasPrefix(l, "FAILING-HISTORY ") {
+			rest := strings.TrimPrefix(l, "FAILING-HISTORY ")
+			parts := strings.SplitN(rest, " :: ", 2)
+			if len(parts) != 2 {
+				continue
+			}
+			// parts[0]: program=NAME history=op op op
+			prog, hist := "", ""
+			if i := strings.Index(parts[0], " history="); i >= 0 {
+				prog = strings.TrimPrefix(parts[0][:i], "program=")
+				hist = parts[0][i+len(" history="):]
+			}
+			return parts[0], parts[1], bin + " replay " + fs[1] + " " + prog + " " + hist
 		}
 	}
 	return "", "", ""
